@@ -65,3 +65,11 @@ Qed.
 (** [parse_content] does not create or hide [OutOfFuel] *)
 Lemma parse_content_oof tol r : parse_content tol r = OutOfFuel <-> r = OutOfFuel.
 Proof. unfold parse_content. destruct r; try destruct tol; split; congruence. Qed.
+
+(** the model's own fuel [parse_fuel s cx = length s * (8 + max_args cx) + 40 +
+    max_args cx] is at least the constant budget [8 * length s + 40] *)
+Lemma parse_fuel_eq s cx :
+  parse_fuel s cx = 8 * length s + max_args cx * length s + 40 + max_args cx.
+Proof. unfold parse_fuel, fuel_unit, fuel_base. rewrite Nat.mul_add_distr_l. lia. Qed.
+Lemma parse_fuel_ge s cx : 8 * length s + 40 <= parse_fuel s cx.
+Proof. rewrite parse_fuel_eq. lia. Qed.
